@@ -890,6 +890,9 @@ Error BaseBuilder::serialize_to(BaseEmitter* dst) {
     node_ = node_->next();
   } while (node_);
 
+  // Not every node consumes the inline comment assigned to `dst` - it must not keep a pointer into the builder's arena.
+  dst->reset_inline_comment();
+
   return err;
 }
 
